@@ -152,6 +152,62 @@ CLAIMED = {
              "property's own wording, recorded as a histogram.",
         technique="Rocq proof (agreement by construction as an invariant over rounds; server-machine gate) + differential correspondence on real handovers and cut points",
         design="4 (C03), 9"),
+    "C10": dict(
+        text="Machine-checked theorems, for ALL byte strings and all oracle answers: the CBOR decoder with every target type is total (value or "
+             "error, never panic, never out of fuel), refuses claimed lengths beyond the limit and nesting beyond the depth limit; COSE "
+             "verification, tunnel decryption, voucher verification and the rendezvous interpreter never panic. The glue (http.Handler, "
+             "responders, client roles, Go allocation behaviour) is exercised by structure-aware fuzzing at every message position of DI, TO0, "
+             "TO1, TO2 on the server (after the honest run-up, plaintext-then-encrypted and on the wire for tunnelled messages, plus path, "
+             "header, token, Content-Length, method variants) and on every response position of the four client roles, with panic, hang "
+             "(watchdog), allocation (<= 64 x size + 8 MiB) and reply-type monitors; cases run in a child process so that a panic on a "
+             "library goroutine is attributed.",
+        note=COMMON_NOTE + "PARTIAL: the theorems cover the byte-level layers; panic/hang/allocation freedom of the glue is tested, not proved (stack "
+             "depth, GC, net/http are outside any executable model). Fuzzing supports the claim, it is not a proof.",
+        technique="Rocq proof (totality / no-panic / bounds of every byte-level layer) + structure-aware fuzzing with monitors",
+        design="4 (C10), 9"),
+    "C16": dict(
+        text="Machine-checked theorems: the owner rebuilds exactly the device's module list from the devmod:modules chunks, whatever predicate "
+             "'fits the MTU' cuts the list and however many names (greedy split, consecutive starts, every chunk fits, split total when "
+             "each name fits alone; collect o split = id); owner modules produce in the ideal order devmod^k0, m1^k1, ... for every plan and "
+             "every pattern of IsMoreServiceInfo flags, IsDone at most once and exactly with the last completion; a module's bytes survive "
+             "the chunking pipeline (C15's lossless theorem). Tied to the code by: real Devmod.Write output vs the model's cuts (encoded sizes "
+             "computed with the CBOR model), hand-made chunk sequences through the real owner vs collect, counting owner modules through raw "
+             "TO2 sessions vs the sequencing model, and scripted owner/device modules exchanging tagged streams through real fdo.TO2 over "
+             "MTU pairs 256..65535 with stream / order / activation / Done monitors.",
+        note=COMMON_NOTE + "Four open known findings (module-list chunk split, delivery to the next module, unknown-module entry, HTTP limit at MTU "
+             "65535). Sizes below 256 bytes are outside the range (the library now refuses them). Goroutine scheduling of the device "
+             "pipeline is exercised, not modelled.",
+        technique="Rocq proof (codec-style round trip for the module list, induction over rounds for sequencing, C15 lossless) + differential correspondence + scripted end-to-end runs",
+        design="4 (C16), 9"),
+    "C17": dict(
+        text="Machine-checked theorems over the transfer modules as state machines on decoded messages (fsim.Download, fsim.UploadRequest, "
+             "fsim.Wget; SHA-384 a universally quantified function): a file appears only under the announced non-empty name with exactly "
+             "the announced length and digest, as the concatenation of the received chunks; chunking with any size >= 1 is lossless and "
+             "bounded; end to end, for every content of at least one byte and every chunk size, the download receiver fed the sender's "
+             "messages answers nothing until the last chunk, then reports the length, and the identical file appears exactly once. Tied "
+             "to the code by driving the real modules message by message (honest sequences for sizes around chunk/MTU multiples plus 49 "
+             "deviations of length, digest, data, name, order; wget against a local server with 8 behaviours) against the model, and by "
+             "complete onboardings moving files with every chunk size and MTU pair, with tampering inside the tunnel.",
+        note=COMMON_NOTE + "One open known finding (upload data chunks vs owner sizes <= 1040). When the announced length exceeds what arrives no "
+             "verdict is ever given (model and code agree; no file appears): recorded as histograms. Files above 6000 data messages run "
+             "under the monitors only (the extracted model is quadratic in the message count).",
+        technique="Rocq proof (receiver soundness, lossless chunking, end-to-end induction over chunks) + differential correspondence + end-to-end transfers",
+        design="4 (C17), 9"),
+    "C18": dict(
+        text="Machine-checked theorems over a reference model of the state store (Store/Store.v: token-keyed session fields with the code's "
+             "per-field rules, vouchers by GUID, rendezvous blobs with expiry): isolation as a refinement — for every history of "
+             "operations over any number of tokens, voucher and blob operations and restarts, what one token observes of one field evolves "
+             "as a one-cell machine that reacts only to operations presenting that token; reads return the cell; read-your-writes for "
+             "overwritable fields (refuted, with the code, for the two write-once fields); tokens never issued or invalidated grant and "
+             "change nothing, death is final; voucher replacement; blob expiry; restart is the identity. Tied to the code by running random "
+             "and systematic operation histories (14 session fields with every value shape, 15 classes of bad tokens, four ways of "
+             "restarting incl. fresh server objects and two live instances on one file) on a real sqlite.DB and through the extracted model, "
+             "comparing every result.",
+        note=COMMON_NOTE + "One open known finding (a second SetDeviceCertChain keeps the first value). Values are compared through digests of canonical "
+             "encodings. Operations outside the store's documented preconditions (ReplaceVoucher with entries, HMAC values of other lengths) "
+             "are not generated.",
+        technique="Rocq proof (refinement of the store to per-token cells over arbitrary histories) + differential correspondence on operation histories",
+        design="4 (C18), 9"),
     "C20": dict(
         text="Machine-checked theorems over the executable model of protocol.parseDirective/parseURLs/cbor.ArrayShift built on the CBOR "
              "decoder model: totality for every instruction list and role, other-role directives yield the zero directive, invariance under "
